@@ -98,6 +98,8 @@ def main(tier_: str) -> int:
         refused = 0
         with DashApp(d / 'app', fixtures=('bbb',)) as da:
             c = da.client()
+            # successive observations are compared only for one and the same URL (templates apply mup differently)
+            hgroups: dict[tuple, int] = {}
             for k in picks:
                 s = states[k]
                 now = to_dt(s['now'])
@@ -122,7 +124,7 @@ def main(tier_: str) -> int:
                     continue
                 mupv = m['minimumUpdatePeriod']
                 hl.append({
-                    'tid': 10**6 + k, 'grp': (10**6 + groups[(s['start'], s['depth'], s['mup'])]) if not s['start'].startswith('x') else -(10**6 + k), 'layer': 'http',
+                    'tid': 10**6 + k, 'grp': (10**6 + hgroups.setdefault((s['start'], s['depth'], s['mup'], tmpl), len(hgroups))) if not s['start'].startswith('x') else -(10**6 + k), 'layer': 'http',
                     'now': s['now'], 'start': s['start'], 'xk': s['xk'], 'depth': s['depth'], 'mup': s['mup'],
                     'has_fta': 0, 'refSegDur': 960, 'refTs': 240, 'url': url,
                     'obs': {'ast': to_inst(m['availabilityStartTime']), 'publish': to_inst(m['publishTime']),
